@@ -230,68 +230,199 @@ def _find_tests(fd, recv_names):
     return out
 
 
+def _pattern_with_delim(e, dl_):
+    """a regex written as constant text around re.escape(<delimiter>): the text with \x00 where the delimiter goes; None if not of that form"""
+    if isinstance(e, ast.Constant) and isinstance(e.value, str):
+        return e.value
+    if isinstance(e, ast.BinOp) and isinstance(e.op, ast.Add):
+        l_, r_ = _pattern_with_delim(e.left, dl_), _pattern_with_delim(e.right, dl_)
+        return None if l_ is None or r_ is None else l_ + r_
+    if isinstance(e, ast.Call) and dotted(e.func) in ('re.escape', 'escape_regex', 'escapeRegExp', 'escape_for_regex') and len(e.args) == 1 and is_name(e.args[0], dl_):
+        return '\x00'
+    if isinstance(e, ast.Call) and dotted(e.func) == '__regex__' and e.args and isinstance(e.args[0], ast.Constant):
+        return e.args[0].value
+    if isinstance(e, ast.Call) and dotted(e.func) in ('re.compile', 'RegExp') and e.args:
+        return _pattern_with_delim(e.args[0], dl_)
+    if isinstance(e, ast.JoinedStr):
+        parts = [(_pattern_with_delim(x.value, dl_) if isinstance(x, ast.FormattedValue) else x.value) for x in e.values]
+        return None if any(x is None for x in parts) else ''.join(parts)
+    if isinstance(e, ast.Call) and isinstance(e.func, ast.Attribute) and e.func.attr == 'format' and isinstance(e.func.value, ast.Constant) and isinstance(e.func.value.value, str) and e.func.value.value.count('{}') == 1 and len(e.args) == 1:
+        inner = _pattern_with_delim(e.args[0], dl_)
+        return None if inner is None else e.func.value.value.replace('{}', inner)
+    return None
+
+
+def _class_members(pat):
+    """members of a pattern that is one bracket class `[...]`: set of characters, with '<delim-char>' for the embedded delimiter; None otherwise"""
+    if not (len(pat) >= 3 and pat[0] == '[' and pat[-1] == ']' and pat[1] != '^'):
+        return None
+    body, out, i = pat[1:-1], set(), 0
+    esc = {'n': '\n', 'r': '\r', 't': '\t'}
+    while i < len(body):
+        c = body[i]
+        if c == '\\' and i + 1 < len(body):
+            nxt = body[i + 1]
+            if nxt in esc:
+                out.add(esc[nxt])
+            elif nxt.isalnum():
+                return None
+            else:
+                out.add(nxt)
+            i += 2
+            continue
+        if c in '[]' or (c == '-' and 0 < i < len(body) - 1):
+            return None
+        out.add('<delim-char>' if c == '\x00' else c)
+        i += 1
+    return out
+
+
+def _absent_chars(atom, pol, params):
+    """the special characters a branch decision shows to be absent from the field (set), or None when the decision is not a
+    recognised test of the field's characters"""
+    from ..idioms import membership
+    src_, dl_ = params[0], params[1]
+
+    def ch(e):
+        if is_name(e, dl_):
+            return '<delim>'
+        v = const_value(e)
+        return v if isinstance(v, str) and len(v) >= 1 else None
+    if isinstance(atom, ast.Compare) and len(atom.ops) == 1:
+        l_, r_, op = atom.left, atom.comparators[0], atom.ops[0]
+        if isinstance(l_, ast.Call) and isinstance(l_.func, ast.Attribute) and l_.func.attr in ('find', 'indexOf') and is_name(l_.func.value, src_) and len(l_.args) == 1 and ch(l_.args[0]):
+            present = None
+            if _is_minus_one(r_):
+                present = {ast.NotEq: True, ast.Eq: False, ast.Gt: True, ast.Is: False, ast.IsNot: True}.get(type(op))
+            elif isinstance(r_, ast.Constant) and r_.value == 0 and r_.value is not False:
+                present = {ast.GtE: True, ast.Lt: False}.get(type(op))
+            if present is not None and present != pol:
+                return {ch(l_.args[0])}
+        if isinstance(op, (ast.In, ast.NotIn)) and is_name(r_, src_) and ch(l_):
+            present = isinstance(op, ast.In)
+            if present != pol:
+                return {ch(l_)}
+    if isinstance(atom, ast.Call) and isinstance(atom.func, ast.Attribute) and atom.func.attr == 'includes' and is_name(atom.func.value, src_) and len(atom.args) == 1 and ch(atom.args[0]) and not pol:
+        return {ch(atom.args[0])}
+    # [c1, c2, ...].some(c => field.includes(c)) / any(c in field for c in [...]) found false: every listed character is absent
+    if not pol and isinstance(atom, ast.Call):
+        box = var = body = None
+        if isinstance(atom.func, ast.Attribute) and atom.func.attr == 'some' and len(atom.args) == 1 and isinstance(atom.args[0], ast.Lambda) and len(atom.args[0].args.args) == 1:
+            box, var, body = atom.func.value, atom.args[0].args.args[0].arg, atom.args[0].body
+        elif dotted(atom.func) == 'any' and len(atom.args) == 1 and isinstance(atom.args[0], (ast.GeneratorExp, ast.ListComp)) and len(atom.args[0].generators) == 1 and not atom.args[0].generators[0].ifs and isinstance(atom.args[0].generators[0].target, ast.Name):
+            g_ = atom.args[0].generators[0]
+            box, var, body = g_.iter, g_.target.id, atom.args[0].elt
+        if box is not None and isinstance(box, (ast.List, ast.Tuple, ast.Set)):
+            m_ = membership(body)
+            if m_ is not None and is_name(m_[0], var) and is_name(m_[1], src_) and m_[2]:
+                out = set()
+                for e in box.elts:
+                    if ch(e) is None:
+                        return None
+                    out.add(ch(e))
+                return out
+    # a bracket class searched in the field and not found: re.search('[...]', field) is None / not re.search(..) / !/[...]/.test(field)
+    call, found = None, None
+    if isinstance(atom, ast.Compare) and len(atom.ops) == 1 and isinstance(atom.left, ast.Call) and isinstance(atom.comparators[0], ast.Constant) and atom.comparators[0].value is None and isinstance(atom.ops[0], (ast.Is, ast.Eq)):
+        call, found = atom.left, not pol
+    elif isinstance(atom, ast.Call):
+        call, found = atom, pol
+    if call is not None and found is False:
+        pat = subject = None
+        d_ = dotted(call.func) or ''
+        if d_ in ('re.search', 're.findall') and len(call.args) == 2:
+            pat, subject = _pattern_with_delim(call.args[0], dl_), call.args[1]
+        elif isinstance(call.func, ast.Attribute) and call.func.attr in ('test', 'search', 'exec') and len(call.args) == 1:
+            pat, subject = _pattern_with_delim(call.func.value, dl_), call.args[0]
+        if pat is not None and is_name(subject, src_):
+            members = _class_members(pat)
+            if members is not None:
+                if '<delim-char>' in members:
+                    members.add('<delim>')      # no character of the delimiter occurs, so neither does the delimiter
+                return members
+    return None
+
+
+def _trigger_paths(p, fname):
+    """for the paths of a quoting function that return the field bare: (path, characters shown absent, unrecognised decisions)"""
+    from .. import pathsem
+    fd = p.func('csv_utils', fname)
+    params = [a.arg for a in fd.args.args]
+    ps = pathsem.paths(fd)
+    if ps is None:
+        return fd, params, None, None
+    out = []
+    for q in ps:
+        if q.kind != 'return' or q.value is None or not is_name(q.value, params[0]):
+            continue
+        absent, unknown = set(), []
+        q.class_predicates = 0
+        for a_, pol in pathsem.atoms(q.conds):
+            got = _absent_chars(a_, pol, params)
+            if got is not None:
+                absent |= got
+                continue
+            # character-class predicates of the field: true -> no quote, no line break in it (says nothing about the delimiter)
+            if pol and isinstance(a_, ast.Call) and isinstance(a_.func, ast.Attribute) and a_.func.attr in ('isalnum', 'isalpha', 'isdigit', 'isdecimal', 'isnumeric', 'isidentifier') and is_name(a_.func.value, params[0]) and not a_.args:
+                absent |= {'"', '\n', '\r'}
+                q.class_predicates += 1
+                continue
+            # a test that found a special character, or the emptiness of the field, does not widen what may be returned bare
+            unknown.append((a_, pol))
+        out.append((q, absent, unknown))
+    return fd, params, ps, out
+
+
+def rule_xp_trigger(cx, rep, port=None):
+    """both ports leave a field bare under the same condition: the sets of characters whose absence is required agree (a port that
+    also quotes on a single character of a multi-character delimiter writes a different file)"""
+    for fname in ('quote_field', 'rfc_quote_field'):
+        sigs = {}
+        und = None
+        for port_ in ('py', 'js'):
+            fd, params, ps, plain = _trigger_paths(cx.port(port_), fname)
+            if ps is None or not plain:
+                und = '{} ({}) not summarisable'.format(fname, port_)
+                break
+            # fast paths guarded by something else than character tests (isalnum(), a length, ...) do not define the condition: CS-TRIGGER
+            # checks that they exclude every special character; the comparison is made on the paths made of character tests only
+            pure = [absent for q, absent, unknown in plain if not q.class_predicates and not any(params[0] in names_in(u_) and _absent_chars(u_, not pol_, params) is None for u_, pol_ in unknown)]
+            if not pure:
+                und = '{} ({}): no path decided by character tests only'.format(fname, port_)
+                break
+            minimal = [x for x in pure if not any(y < x for y in pure)]
+            sigs[port_] = (frozenset(frozenset(x) for x in minimal), fd)
+        if und:
+            rep.undecided(fname + ' trigger agreement', cx.port('py').func('csv_utils', fname), und)
+            continue
+        (s_py, f_py), (s_js, f_js) = sigs['py'], sigs['js']
+        show = lambda s_: ' | '.join(sorted('{' + ', '.join(sorted(repr(c) for c in x)) + '}' for x in s_))  # noqa: E731
+        rep.decide(s_py == s_js, fname + ' trigger agreement', f_py, 'both ports return the field bare exactly when {} are absent'.format(show(s_py)),
+                   'the ports quote under different conditions: python leaves a field bare when {} are absent, javascript when {} are absent{}'.format(show(s_py), show(s_js), ' (one port tests the characters of the delimiter one by one: a field holding part of a multi-character delimiter is quoted by one port only)' if any('<delim-char>' in x for x in (s_py | s_js)) else ''))
+
+
 def rule_cs_trigger(cx, rep, port):
     """characters whose presence makes the writer quote a field >= characters the reader treats specially"""
     p = cx.port(port)
     for fname, need in (('quote_field', {'"', '<delim>'}), ('rfc_quote_field', {'"', '<delim>', '\n', '\r'})):
-        fd = p.func('csv_utils', fname)
-        params = [a.arg for a in fd.args.args]
         # every path that hands the field back unquoted has established the absence of each special character (path summaries:
-        # fast paths, merged conditions, `in` tests, helper predicates are all the same thing)
+        # fast paths, merged conditions, `in` tests, helper predicates, bracket classes are all the same thing)
         from .. import pathsem
-        ps = pathsem.paths(fd)
+        fd, params, ps, plain = _trigger_paths(p, fname)
         if ps is None:
             rep.undecided(fname + ' triggers', fd, '{} is not summarisable as paths'.format(fname))
         else:
-            def absent_of(atom, pol):
-                """which character does this decision show to be absent from the field?"""
-                src_, dl_ = params[0], params[1]
-                def ch(e):
-                    if is_name(e, dl_):
-                        return '<delim>'
-                    v = const_value(e)
-                    return v if isinstance(v, str) and len(v) >= 1 else None
-                if isinstance(atom, ast.Compare) and len(atom.ops) == 1:
-                    l_, r_, op = atom.left, atom.comparators[0], atom.ops[0]
-                    if isinstance(l_, ast.Call) and isinstance(l_.func, ast.Attribute) and l_.func.attr in ('find', 'indexOf') and is_name(l_.func.value, src_) and len(l_.args) == 1 and ch(l_.args[0]):
-                        present = None
-                        if _is_minus_one(r_):
-                            present = {ast.NotEq: True, ast.Eq: False, ast.Gt: True, ast.Is: False, ast.IsNot: True}.get(type(op))
-                        elif isinstance(r_, ast.Constant) and r_.value == 0 and r_.value is not False:
-                            present = {ast.GtE: True, ast.Lt: False}.get(type(op))
-                        if present is not None and present != pol:
-                            return ch(l_.args[0])
-                    if isinstance(op, (ast.In, ast.NotIn)) and is_name(r_, src_) and ch(l_):
-                        present = isinstance(op, ast.In)
-                        if present != pol:
-                            return ch(l_)
-                if isinstance(atom, ast.Call) and isinstance(atom.func, ast.Attribute) and atom.func.attr == 'includes' and is_name(atom.func.value, src_) and len(atom.args) == 1 and ch(atom.args[0]) and not pol:
-                    return ch(atom.args[0])
-                return None
             n_plain = 0
             bad = None
-            for q in ps:
-                if q.kind != 'return' or q.value is None or not is_name(q.value, params[0]):
-                    continue
+            for q, absent, unknown in plain:
                 n_plain += 1
-                absent = {absent_of(a_, pol) for a_, pol in pathsem.atoms(q.conds)} - {None}
-                unknown = []
-                for a_, pol in pathsem.atoms(q.conds):
-                    if absent_of(a_, pol) is not None:
-                        continue
-                    # character-class predicates of the field: true -> no quote, no line break in it (says nothing about the delimiter)
-                    if pol and isinstance(a_, ast.Call) and isinstance(a_.func, ast.Attribute) and a_.func.attr in ('isalnum', 'isalpha', 'isdigit', 'isdecimal', 'isnumeric', 'isidentifier') and is_name(a_.func.value, params[0]) and not a_.args:
-                        absent |= {'"', '\n', '\r'}
-                        continue
-                    # a test that found a special character, or the emptiness of the field, does not widen what may be returned bare
-                    unknown.append(a_)
                 missing = need - absent
-                if missing and unknown and any(params[0] in names_in(u_) for u_ in unknown if not (isinstance(u_, ast.Compare) and isinstance(u_.left, ast.Call) and isinstance(u_.left.func, ast.Attribute) and u_.left.func.attr in ('find', 'indexOf'))):
-                    rep.undecided(fname + ' triggers', q.node, 'a path returns the field unquoted under `{}`, which is not a recognised test of the field\'s characters'.format(' / '.join(node_text(u_, 40) for u_ in unknown)))
+                if missing and unknown and any(params[0] in names_in(u_) for u_, _p in unknown if not (isinstance(u_, ast.Compare) and isinstance(u_.left, ast.Call) and isinstance(u_.left.func, ast.Attribute) and u_.left.func.attr in ('find', 'indexOf'))):
+                    rep.undecided(fname + ' triggers', q.node, 'a path returns the field unquoted under `{}`, which is not a recognised test of the field\'s characters'.format(' / '.join(node_text(u_, 40) for u_, _p in unknown)))
                     n_plain = -1
                     break
                 if missing:
-                    why = [node_text(t_, 40) for t_, pol in q.conds if absent_of(t_, pol) is None]
+                    why = [node_text(t_, 40) for t_, pol in q.conds if _absent_chars(t_, pol, params) is None]
                     bad = (q, missing, why)
                     break
             if bad is not None:
@@ -314,7 +445,10 @@ def rule_cs_trigger(cx, rep, port):
                     ok_rep = True
         rep.decide(ok_rep, fname + ' doubling', reps[0] if reps else fd, 'every inner quote is doubled', 'inner double quotes are not all doubled (`{}`)'.format(node_text(reps[0]) if reps else 'no replace'))
         # enclosing quotes on every quoted return
-        rets = [r for r in walk_no_nested(fd) if isinstance(r, ast.Return)]
+        class _R(object):
+            def __init__(self, value):
+                self.value = value
+        rets = [_R(q.value) for q in ps if q.kind == 'return'] if ps is not None else [r for r in walk_no_nested(fd) if isinstance(r, ast.Return)]
         quoted = [r for r in rets if _is_enclosed(r.value)]
         plain = [r for r in rets if is_name(r.value, params[0])]
         rep.decide(len(quoted) >= 1 and len(quoted) + len(plain) == len(rets), fname + ' enclosing', fd, '{} quoted return(s) enclose the field in double quotes, {} return the field unchanged'.format(len(quoted), len(plain)), 'a return of {} is neither the field itself nor the field enclosed in double quotes'.format(fname))
@@ -391,7 +525,7 @@ def rule_cs_accept(cx, rep, port):
     for q in ps:
         if q.kind != 'return' or q.value is None:
             continue
-        elts = list(q.value.elts) if isinstance(q.value, (ast.Tuple, ast.List)) else [q.value]
+        elts = list(q.value.elts) if isinstance(q.value, (ast.Tuple, ast.List)) else (list(q.value.values) if isinstance(q.value, ast.Dict) else [q.value])
         # the field: appended to the result list, or returned as a component
         fields = [c.args[0] for c in q.calls if isinstance(c, ast.Call) and isinstance(c.func, ast.Attribute) and c.func.attr in ('append', 'push') and c.args]
         is_pos = lambda e: any(isinstance(x, ast.Call) and dotted(x.func) == 'len' and x.args and is_name(x.args[0], dlm) for x in ast.walk(e))  # noqa: E731
@@ -537,10 +671,11 @@ def rule_cs_width(cx, rep, port):
             seen_ret = set()
             for q in rps:
                 r = q.node
-                if q.kind == 'return' and isinstance(q.value, (ast.Tuple, ast.List)) and q.value.elts and id(r) not in seen_ret:
+                comps = list(q.value.elts) if isinstance(q.value, (ast.Tuple, ast.List)) else (list(q.value.values) if isinstance(q.value, ast.Dict) else [])
+                if q.kind == 'return' and comps and id(r) not in seen_ret:
                     seen_ret.add(id(r))
                     # the position component: the one computed from a position in the line (locals substituted along the path)
-                    cands = [e_ for e_ in q.value.elts if isinstance(e_, ast.BinOp) and isinstance(e_.op, ast.Add)]
+                    cands = [e_ for e_ in comps if isinstance(e_, ast.BinOp) and isinstance(e_.op, ast.Add)]
                     if not cands:
                         continue
                     pos = cands[0]
@@ -895,7 +1030,7 @@ def rule_cs_writer(cx, rep, port):
     seps = [c for c in writes if c.args and dotted(c.args[0]) == 'self.line_separator']
     rep.decide(len(seps) == 1, 'line separator', seps[0] if seps else wr, 'exactly one line separator is written per record', '{} line separators are written per record'.format(len(seps)))
     lines = [c for c in writes if c.args and dotted(c.args[0]) != 'self.line_separator' and not (isinstance(c.args[0], ast.Name) and 'color' in c.args[0].id)]
-    rep.decide(len(lines) == 1 and lines[0].lineno < (seps[0].lineno if seps else 10 ** 9), 'record line', lines[0] if lines else wr, 'the joined record is written before its separator', 'the record line is not written exactly once before the separator')
+    rep.decide(len(lines) == 1 and lines[0].pos < (seps[0].pos if seps else 10 ** 9), 'record line', lines[0] if lines else wr, 'the joined record is written before its separator', 'the record line is not written exactly once before the separator')
     # join by delimiter
     jname = 'join_by_delim' if port == 'py' else 'simple_join'
     j = ms.get(jname)
